@@ -693,6 +693,11 @@ def setup():
     return rc_all
 
 
+def hook_commits():
+    rc, o, _ = sh(["git", "-C", REPO, "log", "--reverse", "--format=%h %s", "--grep", "^verif hook:"])
+    return [l.split()[0] for l in o.splitlines() if l.strip()] if rc == 0 else []
+
+
 def manifest():
     base_cmd = json.load(open("/root/.vp/BASELINE.json"))["cmd"] if os.path.exists("/root/.vp/BASELINE.json") else ""
     old = {}
@@ -726,7 +731,7 @@ def manifest():
         "setup_cmd": "./check --setup",
         "hooks": {"guard": "verif", "enable": "go build -tags verif (harness module at /verif/harness, replace => /repo)",
                   "baseline_off_cmd": base_cmd,
-                  "source_commits": old.get("hooks", {}).get("source_commits", []), "add_only": True},
+                  "source_commits": hook_commits(), "add_only": True},
         "engines": [{"name": "coq-proof+correspondence", "path": "/verif/check",
                      "serves_properties": [c["property_id"] for c in checks],
                      "kind_free_text": "Coq 8.16 theorems over executable Gallina models (coq/), tied to /repo by a Go-AST translator (tools/translate -> coq/Gen) and by a differential correspondence harness (harness/) whose observations are evaluated by the models and monitors inside Coq (vm_compute)"}],
